@@ -302,6 +302,115 @@ fn import_after_rewrite(rep: &mut Report) {
     let _ = std::fs::remove_dir_all(&dir);
 }
 
+/// "... or after unrelated work gives the same outcome": a set of probe programs is judged before and after each of a
+/// list of unrelated programs that *fail* in every phase (unreadable / ill-formed / ill-typed / failing imports, syntax and
+/// type errors, failing constants, every run-time error, errors raised in the middle of iterator helpers), all on one
+/// thread - state an error path forgets to restore (search directories, scopes, caches) shows as a changed probe outcome
+fn after_unrelated_work(rep: &mut Report) {
+    let dir = format!("/verif/target/scratch/c05w-{}", std::process::id());
+    let _ = std::fs::create_dir_all(format!("{dir}/sub"));
+    let files: [(&str, String); 9] = [
+        ("good.ssl", "answer := 42;".into()),
+        ("sub/good.ssl", "answer := 43;".into()),
+        ("sub/other.ssl", "other := 7;".into()),
+        ("syntax_bad.ssl", "x := := ;".into()),
+        ("type_bad.ssl", "x := 1 + \"a\";".into()),
+        ("fold_bad.ssl", "x := 1 / 0;".into()),
+        ("sub/late_bad.ssl", "first := 1; second := first + \"a\";".into()),
+        ("nested_bad.ssl", format!("m := import \"{dir}/sub/late_bad.ssl\";")),
+        ("nested_rel.ssl", "m := import \"good.ssl\";".into()),
+    ];
+    for (name, text) in &files {
+        if std::fs::write(format!("{dir}/{name}"), text).is_err() {
+            rep.inconclusive("scratch-file-not-writable");
+            return;
+        }
+    }
+    let _ = std::fs::write(format!("{dir}/not_utf8.ssl"), [0xffu8, 0xfe, 0x00]);
+    let probes: Vec<String> = vec![
+        "m := import \"good.ssl\"; m.answer".into(),
+        "m := import \"other.ssl\"; m.other".into(),
+        "m := import \"sub/good.ssl\"; m.answer".into(),
+        format!("m := import \"{dir}/good.ssl\"; m.answer"),
+        format!("m := import \"{dir}/sub/good.ssl\"; m.answer"),
+        format!("m := import \"{dir}/nested_rel.ssl\"; m"),
+        "answer".into(),
+        "first".into(),
+        "x".into(),
+        "res".into(),
+        "x := 5; f := (y: int) -> int { return x + y }; f(1)".into(),
+        "[1, 2, 3]~ @ (x: int) -> int { return x * 2 } ? (x: int) -> bool { return x > 2 } $]".into(),
+        "[true, false]~ $&&".into(),
+        "[1, \"a\", 2.5]~ ? int|float $]".into(),
+        "c := mut 1; c += 1; *c".into(),
+        "it := [1]~; it(); it()".into(),
+        "m := mod { a := 1; b := 2 }; (m.a, m.b)".into(),
+        "loop { break; }; 3".into(),
+    ];
+    let work: Vec<String> = vec![
+        format!("m := import \"{dir}/syntax_bad.ssl\"; 1"),
+        format!("m := import \"{dir}/type_bad.ssl\"; 1"),
+        format!("m := import \"{dir}/fold_bad.ssl\"; 1"),
+        format!("m := import \"{dir}/sub/late_bad.ssl\"; 1"),
+        format!("m := import \"{dir}/nested_bad.ssl\"; 1"),
+        format!("m := import \"{dir}/not_utf8.ssl\"; 1"),
+        format!("m := import \"{dir}/missing.ssl\"; 1"),
+        format!("m := import \"{dir}/sub\"; 1"),
+        format!("f := () -> int {{ m := import \"{dir}/sub/late_bad.ssl\"; return 1 }}; f()"),
+        format!("loop {{ m := import \"{dir}/type_bad.ssl\"; break; }}"),
+        format!("m := import \"{dir}/sub/good.ssl\"; n := import \"{dir}/type_bad.ssl\"; 1"),
+        "x := := ;".into(),
+        "x := 1 + \"a\";".into(),
+        "answer := 1; first := 2; res := 3; x := 1 / 0;".into(),
+        "x := 4; y := [1][x]; y".into(),
+        "hi := (v: int) -> int { return v }; x := 7; res := 8; 1 / hi(0)".into(),
+        "hi := (v: int) -> int { return v }; 1 % hi(0)".into(),
+        "hi := (v: int) -> int { return v }; 1 << hi(64)".into(),
+        "hi := (v: int) -> int { return v }; 2 ** hi(-1)".into(),
+        "hi := (v: int) -> int { return v }; [0; hi(-1)]".into(),
+        "hi := (v: int) -> int { return v }; [1][hi(3)]".into(),
+        "hi := (v: int) -> int { return v }; [1, 2, 0]~ @ (x: int) -> int { return 10 / x } $]".into(),
+        "hi := (v: int) -> int { return v }; [1, 2, 0]~ ? (x: int) -> bool { return 10 / x > 1 } $]".into(),
+        "hi := (v: int) -> int { return v }; [1, 0]~ $ 0 (a: int, x: int) -> int { return 10 / x }".into(),
+        "hi := (v: int) -> int { return v }; for x in [1, 0]~ { 10 / x; }".into(),
+        "hi := (v: int) -> int { return v }; m := mod { a := 1; b := 1 / hi(0) }; 1".into(),
+        "hi := (v: int) -> int { return v }; f := (n: int) -> int { x := 9; return 1 / n }; f(0)".into(),
+        "hi := (v: int) -> int { return v }; c := mut 1; c /= hi(0)".into(),
+        "hi := (v: int) -> int { return v }; match hi(1) { 1 / hi(0) => 1, => 2, }".into(),
+        "hi := (v: int) -> int { return v }; if v: int = 1 / hi(0) { 1 } else { 2 }".into(),
+        "f := (x: int) -> int { return x }; f(\"a\")".into(),
+        "break".into(),
+        "return 1 +".into(),
+        "x := [1, 2".into(),
+    ];
+    let mut baseline = Vec::new();
+    for p in &probes {
+        baseline.push(digest(p).0);
+    }
+    for (wi, w) in work.iter().enumerate() {
+        let _ = digest(w);
+        rep.count("unrelated-work-items");
+        for (pi, p) in probes.iter().enumerate() {
+            rep.evaluations += 1;
+            rep.count("probes-after-unrelated-work");
+            let now = digest(p).0;
+            if now != baseline[pi] && now != "inconclusive" && baseline[pi] != "inconclusive" {
+                let asp = aspect(&baseline[pi], &now);
+                rep.violation(
+                    &format!("c05:after-unrelated-work:{asp}"),
+                    &format!("the program `{}` gave {} at first and {} after the unrelated program `{}` had been parsed and run on the same thread", truncate(&p.replace(&dir, "<dir>"), 120), truncate(&baseline[pi], 160), truncate(&now, 160), truncate(&w.replace(&dir, "<dir>"), 160)),
+                    "c05-work",
+                    p,
+                );
+                let _ = wi;
+                let _ = std::fs::remove_dir_all(&dir);
+                return;
+            }
+        }
+    }
+    let _ = std::fs::remove_dir_all(&dir);
+}
+
 pub fn run(cfg: &Cfg, rep: &mut Report) {
     let deadline = Deadline::new(cfg.budget_s);
     if let Some(range) = cfg.extra.get("child") {
@@ -370,6 +479,9 @@ pub fn run(cfg: &Cfg, rep: &mut Report) {
     if cfg.shard == 0 {
         import_after_rewrite(rep);
     }
+    if cfg.shard == 1 % cfg.nshards {
+        after_unrelated_work(rep);
+    }
     // ---- programs: K repetitions in this process, then P further processes
     let n_prog = cfg.per_shard(8_000, 400_000);
     let batch = 200u64;
@@ -420,6 +532,10 @@ pub fn run(cfg: &Cfg, rep: &mut Report) {
 pub fn replay(kind: &str, payload: &str, rep: &mut Report) {
     if kind == "c05-import" {
         import_after_rewrite(rep);
+        return;
+    }
+    if kind == "c05-work" {
+        after_unrelated_work(rep);
         return;
     }
     if kind == "c05-types" {
